@@ -537,7 +537,7 @@ impl World for ReteWorld {
                 "fault.clock_stalled",
             ],
             quick_runs: 120_000,
-            thorough_runs: 2_500_000,
+            thorough_runs: 2_000_000,
         }
     }
 
